@@ -39,7 +39,8 @@ static void audit_srclen(int s, const char *when) {
 
 /* ---- token bucket: success log over virtual time ---- */
 static struct { uint64_t t[64]; int n; int refusals; uint64_t set_at; } TBLOG[NM];
-static const struct { int rate; int burst; } TBCFG[] = { { 0, 0 }, { 1, 1 }, { 2, 1 }, { 1, 3 }, { 1000, 2 } };
+static const struct { int rate; int burst; } TBCFG[] = { { 0, 0 }, { 1, 1 }, { 2, 1 }, { 1, 3 }, { 1000, 2 }, { 65536, 1 } };
+#define NTBCFG 6
 /* returns 1 if the call was refused by the bucket (and checks that this was legitimate) */
 static int tb_account(int s, int rc, const snap_t *sn, const char *what) {
     mod_t *m = &MD[s];
@@ -53,7 +54,8 @@ static int tb_account(int s, int rc, const snap_t *sn, const char *what) {
     if (TBLOG[s].n < 64) TBLOG[s].t[TBLOG[s].n++] = shim_now_ns;
     if (ON(R_TB)) for (int i = 0; i < TBLOG[s].n; i++) {     /* every interval ending now */
         int cnt = TBLOG[s].n - i; double dt = (double)(shim_now_ns - TBLOG[s].t[i]) / 1e9;
-        if (cnt > m->tb_burst + m->tb_rate * dt + 1e-9)
+        /* +1: a refill that was already due when the bucket was full may be credited late (lazy crediting at dispatch time), see DESIGN 11.4 */
+        if (cnt > m->tb_burst + m->tb_rate * dt + 1 + 1e-9)
             vfail("TB.bound", "TB.bound", "%d token-consuming calls of %s succeeded within %.6f s, the bucket allows at most burst %d + rate %d * t", cnt, m->name, dt, m->tb_burst, m->tb_rate);
     }
     return 0;
@@ -364,7 +366,7 @@ static void do_api(op_t op) {
         for (int i = 0; i < MAXSRC; i++) { if (MD[s].src[i].present && MD[s].src[i].kind == kind && MD[s].src[i].key == key) idx = i; if (!MD[s].src[i].present && freei < 0) freei = i; }
         if (op.c == O_SRC_REG) {
             if (freei < 0) { api_depth--; return; }
-            if (kind == K_FD && key != 15 && legal && idx < 0) shim_user_fd(UFD[key].rd, (flags & 1) != 0);
+            if (kind == K_FD && key != 15 && legal && idx < 0) shim_user_fd(UFD[key].rd, (flags & 5) == 1);
             rc = src_call(h, kind, key, 1, flags, &SRCUP[s][freei]);
             if (!legal || key == 15) { REFUSED(rc, what, key == 15 ? "SR.set|bad-param" : "ST.refuse|src"); if (ON(R_SR)) for (int i = 0; i < NM; i++) audit_srclen(i, what); break; }
             if (tb_account(s, rc, &sn, what)) break;
@@ -379,7 +381,7 @@ static void do_api(op_t op) {
             if (kind == K_TASK) { if (rc >= 0) vfail("SR.set", "SR.set|task-dereg", "a task source was deregistered (returned %d)", rc); check_unchanged(&sn, what, "SR.set|task-dereg"); if (api_depth == 1) last_refused = 1; break; }
             if (idx < 0) { REFUSED(rc, what, "SR.set|absent"); break; }
             if (rc) vfail("SR.set", "SR.set|remove", "%s: key present, returned %d", what, rc);
-            if (kind == K_FD && (MD[s].src[idx].flags & 1)) UFD[key].open_rd = 0;
+            if (kind == K_FD && (MD[s].src[idx].flags & 5) == 1) UFD[key].open_rd = 0;
             MD[s].src[idx].present = 0; if (kind == K_TMR) mt_del(s, idx);
         }
         break; }
@@ -390,6 +392,7 @@ static void do_api(op_t op) {
         if (rc == -EAGAIN && MD[s].tb_rate > 0) { TBLOG[s].refusals++; break; }      /* reconfiguration itself consumes tokens (source registration) */
         if (rc) vfail("TB.set", "TB.set", "m_mod_set_tokenbucket(%d,%d) returned %d", TBCFG[op.b].rate, TBCFG[op.b].burst, rc);
         if (TBCFG[op.b].rate) MD[s].life |= 4;
+        MD[s].tb_prev = 0; for (int q = 0; q < NTBCFG; q++) if (MD[s].tb_rate == TBCFG[q].rate && MD[s].tb_burst == TBCFG[q].burst) MD[s].tb_prev = q;
         MD[s].tb_rate = TBCFG[op.b].rate; MD[s].tb_burst = TBCFG[op.b].burst; memset(&TBLOG[s], 0, sizeof TBLOG[s]); TBLOG[s].set_at = shim_now_ns;
         break; }
     /* ------------------------------------------------ environment / user-held */
